@@ -79,6 +79,10 @@ CLAIMS = {
          "Structural necessary conditions: the value ranges of good captures, quiets, bad captures, the duplicate sentinel and the hash weight are strictly ordered against the yield thresholds and fit int16; each history table saturates at MaxHistory (same constant in clamp and divisor, product formed wide enough); each generator runs at most once and the hash move comes first behind the IsPseudoLegal gate; both ranking loops rank exactly the newly generated tail and give the hash move's second copy the sentinel; every yield steps the cursor exactly once after a swap; exhaustion is reported only after both generators ran. Multiset equality of picker output for concrete history states is not decided.",
          "Trusts go/ssa; interval evaluator is sound but incomplete (unbounded => undecided).",
          "DESIGN.md §3 C16"),
+ "C19": ("generic-instance identity and type-test census over the Eval closure, SSA tree comparison of the integer and float branches (with rational-function probe for algebraic rewrites), constant check of the sigmoid table against the float branch's own closed form, SSA shape analysis of the reflection traversals, name/type resolution of tuned fields, AST path check of the gradient loop",
+         "Structural necessary conditions: tuner and engine run instances of one generic Eval whose only type-dependent code is two type tests whose branches agree (tapering same expression tree; sigmoid table equals round of the float closed form on all 100 entries with clamping within rounding); ToVector/SetVector/TunedParams/convert traverse the same fields in the same order, one element per leaf, counter incremented once after the yield; all target names resolve to coefficient fields of the right type; the finite-difference loop indexes gradients by the iteration key and restores the perturbed coefficient on every path; the tuner negates for Black only. The 2.25 cp numeric envelope over positions is not decided.",
+         "Trusts go/ssa; reflection is analysed structurally, never evaluated; tuner client is analysed with the packages that type-check offline.",
+         "DESIGN.md §3 C19"),
 }
 
 NOT_YET = "no static rule of DESIGN.md §3 for this property is built in this revision yet; not claimed"
